@@ -60,6 +60,16 @@ def build(rnd, loc, depth, files, counter, prefix):
     me = counter[0]
     counter[0] += 1
     lines = [f"systemLog('enter {me}')", f"g{me} = {me}"]
+    if rnd.random() < 0.5:
+        # control flow around includes, in includer and included text alike (every text numbers its generated labels from 0):
+        # an include in a branch that is not taken is never fetched, and loops in one text do not disturb jumps in another
+        blocks = [f"if cnt < 0:\n    include 'never-taken-{me}.bare'\nelse:\n    systemLog('else {me}')\nendif",
+                  f"jx{me} = 0\nwhile jx{me} < 2:\n    jx{me} = jx{me} + 1\n    if jx{me} == 1:\n        continue\n    endif\n    systemLog('loop {me} ' + jx{me})\nendwhile",
+                  f"for fv{me} in arrayNew(1, 2):\n    if fv{me} > 1:\n        break\n    endif\nendfor",
+                  f"if cnt >= 0:\n    systemLog('then {me}')\nendif"]
+        rnd.shuffle(blocks)
+        # (the same generated label names sit at DIFFERENT statement indexes in different texts)
+        lines += [f"pad{me}x{q} = {q}" for q in range(rnd.randint(0, 4))] + blocks[:rnd.randint(1, 4)]
     nkids = rnd.randint(0, 3) if depth < 4 else 0
     is_url = loc is not None and re.match(r'^[a-z]+:', loc)
     for k in range(nkids):
@@ -139,12 +149,16 @@ def user(g, lib):
     return {k: refval.canon(v) for k, v in g.items() if k not in lib}
 
 
-def run_real(model, root, files, faults, api, prefix, debug=False):
+def run_real(model, root, files, faults, api, prefix, debug=False, no_fetch=None):
     bare_script, lib, rt_err, p_err, url_file_relative = api
     fs = VirtualFS(files, faults=faults, norm=norm_url)
     logs = []
     g = {'cnt': 0}
     o = {'globals': g, 'logFn': logs.append, 'fetchFn': fs, 'systemPrefix': prefix, 'maxStatements': 100000}
+    if no_fetch == 'absent':
+        del o['fetchFn']
+    elif no_fetch == 'none':
+        o['fetchFn'] = None
     if debug:
         o['debug'] = True
     if root is not None:
@@ -161,11 +175,11 @@ def run_real(model, root, files, faults, api, prefix, debug=False):
     return {'r': r, 'fetches': [norm_url(u) for u in fs.calls], 'logs': logs, 'globals': user(g, lib)}
 
 
-def run_ref(model, root, files, faults, api, prefix):
+def run_ref(model, root, files, faults, api, prefix, no_fetch=False):
     bare_script, lib, rt_err, p_err, _ = api
     fs = VirtualFS(files, faults=faults, norm=norm_url)
     g = {'cnt': 0}
-    vm = RefVM(g, lib, fetch=lambda url: fs({'url': url}), base=root, system_prefix=prefix, parse=bare_script.parse_script, fuel=100000)
+    vm = RefVM(g, lib, fetch=None if no_fetch else (lambda url: fs({'url': url})), base=root, system_prefix=prefix, parse=bare_script.parse_script, fuel=100000)
     try:
         r = ('ok', refval.canon(vm.run(model)))
     except IncludeParseError as exc:
@@ -188,6 +202,19 @@ def check_tree(root, main, files, acc, api, prefix, only_fault=None):
             plans.append(({k: kind}, f'{kind}@{k}'))
     if only_fault is not None:
         plans = [p for p in plans if p[1] == only_fault] or plans[:1]
+    if only_fault is None:
+        # a host without a fetch function (key absent, or None): the first include fails, and the error names the RESOLVED location
+        ref_nf = run_ref(model, root, files, {}, api, prefix, no_fetch=True)
+        for how in ('absent', 'none'):
+            real_nf = run_real(model, root, files, {}, api, prefix, no_fetch=how)
+            acc.count('runs_without_fetch_function')
+            if real_nf is not None:
+                real_nf['fetches'] = []
+                bad = [k for k in ('r', 'logs', 'globals') if real_nf[k] != ref_nf[k]]
+                if bad:
+                    acc.violation('include-without-fetch-function:' + ','.join(bad), f'fetchFn {how}, root={root!r}: ' + '; '.join(f'{k}: real={real_nf[k]!r:.300} ref={ref_nf[k]!r:.300}' for k in bad)
+                                  + f'\nmain:\n{main}', dict(base_case, fault='no-fetch-' + how))
+                    return
     for faults, label in plans:
         ref = ref0 if not faults else run_ref(model, root, files, faults, api, prefix)
         real = run_real(model, root, files, faults, api, prefix)
